@@ -344,6 +344,25 @@ static std::string op_pgdecode(std::istringstream& is)
     return join(v);
 }
 
+// ---- C12: raw bitbase lookups through bitbase::normalize for every triple of squares ----
+// kpkraw <strong 0/1> <stm 0/1> <pawn square> : 64x64 chars (strong king major, weak king minor)
+static std::string op_kpkraw(std::istringstream& is)
+{
+    int strong, stm, pawn;
+    is >> strong >> stm >> pawn;
+    std::string out;
+    out.reserve(4096);
+    for (int sk = 0; sk < 64; ++sk)
+        for (int wk = 0; wk < 64; ++wk)
+        {
+            Color side = Color(stm);
+            Square a = Square(sk), p = Square(pawn), b = Square(wk);
+            bitbase::normalize(Color(strong), side, a, p, b);
+            out.push_back(bitbase::check(side, a, p, b) ? '1' : '0');
+        }
+    return out;
+}
+
 static std::string dispatch_more(const std::string& op, std::istringstream& is)
 {
     if (op == "g_legal") return run_game(is, obs_legal);
@@ -355,6 +374,7 @@ static std::string dispatch_more(const std::string& op, std::istringstream& is)
     if (op == "walkx") return op_walk_gen(is, obs_full);
     if (op == "g_key") return run_game(is, obs_key);
     if (op == "pghash") return op_pghash(is);
+    if (op == "kpkraw") return op_kpkraw(is);
     if (op == "book") return op_book(is);
     if (op == "pick") return op_pick(is);
     if (op == "pgdecode") return op_pgdecode(is);
